@@ -16,7 +16,7 @@ RULE = ("signer sets of size 1..6 (thorough: up to 32) with keys from a pool of 
         "secret keys, forced repeated keys, repeated messages and zero-sum pairs (sk, r-sk); honest signatures "
         "and the expected aggregate come from the model. One perturbation per case from: none, permute, "
         "regroup (aggregate of aggregates), drop / duplicate / substitute a signature, drop a signer's key "
-        "and message, swap two messages, swap two keys, append a message or key (length mismatch whose "
+        "and message, swap two messages, swap two keys, append / drop / repeat a message or append a key (length mismatch whose "
         "zip-truncated prefix is valid), alter the aggregate (-A, A+S, A+T, bit flip, identity), replace a key "
         "by the identity / a non-subgroup point / malformed bytes, a pair of keys P+T, Q-T whose torsion cancels, empty lists, wrong-size Aggregate entries. "
         "Oracle (exact, by non-degeneracy): Aggregate == canonical encoding of the model group sum for every "
@@ -32,7 +32,7 @@ ASSUMPTIONS = ["model signatures and group sums (vf/model/blssig.py, bls12381.py
 ENGINE = "hypothesis"
 TECHNIQUE = ("property-based testing (Hypothesis): metamorphic perturbations of signer sets judged by an exact acceptance predicate computed by an independent model")
 PERTS = ("none", "permute", "regroup", "drop_sig", "dup_sig", "subst_sig", "drop_signer", "swap_msgs", "swap_keys",
-         "extra_msg", "extra_key", "neg_agg", "agg_plus_sig", "agg_plus_torsion", "agg_bitflip", "agg_identity",
+         "extra_msg", "drop_msg", "dup_msg", "extra_key", "neg_agg", "agg_plus_sig", "agg_plus_torsion", "agg_bitflip", "agg_identity",
          "key_identity", "key_non_subgroup", "key_cancel_pair", "key_malformed", "empty")
 _REQ = ([f"pert:{p}" for p in PERTS] +
         ["entry:AggregateVerify:basic", "entry:AggregateVerify:aug", "entry:AggregateVerify:pop",
@@ -261,6 +261,11 @@ def build(t):
         dlogs[i], dlogs[j] = dlogs[j], dlogs[i]
     elif pert == "extra_msg":
         msgs = msgs + [extra_msg]
+    elif pert == "drop_msg":
+        # all keys and the aggregate over all of them kept, one message missing (length mismatch)
+        msgs = msgs[:i] + msgs[i + 1:]
+    elif pert == "dup_msg":
+        msgs = msgs + [msgs[j]]
     elif pert == "extra_key":
         pks, dlogs = pks + [pk_of(extra_sk)], dlogs + [extra_sk]
     elif pert == "neg_agg":
